@@ -85,13 +85,13 @@ CHECKS = {
     "C09": dict(
         category="model_checking",
         technique="exhaustive identifier x role x feature matrix executed differentially against CPython, plus stateless schedule exploration of the random source (every draw answered 'fresh' or 'equal to an earlier value', deviation-bounded) with the output compared up to renaming and executed",
-        text="Every cell of (28 risky identifiers incl. every builtin the generated code calls, read from generated ASTs) x (12 binding roles) x (21 helper-introducing features + 10 scope-local features) under 8 option combinations must behave like the same program under CPython; and for 12 programs with several temporaries every schedule of RNG answers with up to 2 (quick) / 4 (thorough, short programs) forced equalities must give output identical up to renaming that behaves like the source.",
+        text="Every cell of (28 risky identifiers incl. every builtin the generated code calls, read from generated ASTs) x (13 binding roles) x (21 helper-introducing features + 10 scope-local features) under 8 option combinations must behave like the same program under CPython; and for 12 programs with several temporaries every schedule of RNG answers with up to 2 (quick) / 4 (thorough, short programs) forced equalities must give output identical up to renaming that behaves like the source.",
         note="Trusted: CPython; random.choices is the only randomness and is owned by the harness.",
         ref="DESIGN.md 3 C09, 5b E2",
     ),
     "C11": dict(
         category="model_checking",
-        technique="exhaustive enumeration of all 756 parameter lists x 6 variants (def, annotated def, lambda, parameters captured by closures, defaults reading the defining scope, parameters read by a class body) x 3 placements, each with its complete call battery (environment answers) executed on the reference and on every conversion",
+        technique="exhaustive enumeration of all 756 parameter lists x 7 variants (def, annotated def, lambda, parameters captured by closures, defaults reading the defining scope, parameters read by a class body, parameters captured and re-bound) x 3 placements, each with its complete call battery (environment answers) executed on the reference and on every conversion",
         text="All 756 parameter lists (<= 2 per kind, every legal default pattern) as def / annotated def / lambda / def whose parameters are captured by inner scopes, defined at module, function and class level, under 8 option combinations: definition-time log of default and decorator probes, inspect.signature (modulo annotations) and the result of every call shape in the battery (0..n+1 positionals x keyword subsets incl. unknown and duplicate names; return taken or not) must match CPython.",
         note="Trusted: CPython's argument binding; only the TypeError type is compared.",
         ref="DESIGN.md 3 C11",
@@ -106,14 +106,14 @@ CHECKS = {
     "C14": dict(
         category="model_checking",
         technique="exhaustive enumeration of import-statement histories (<= 2/3 statements over 20 forms) x placement x caller identity against a vendored logging package tree, sys.modules purged per run; import log, sys.modules delta and bound objects compared with CPython",
-        text="Every sequence of up to 2 (quick) / 3 (thorough) import statements over 20 forms (plain, dotted, aliased, multi-name, from-import of attributes and unimported submodules, relative level 1 and 2) in 7 placements (module, function, class, function whose inner function and inner class body read the names as free variables, inner function with nonlocal, function with global, module level after while and for-break loops), as a top-level script and as a module inside the package, under all option combinations: which modules are executed, in which order, what ends up in sys.modules and what every bound name refers to must equal CPython's.",
+        text="Every sequence of up to 2 (quick) / 3 (thorough) import statements over 20 forms (plain, dotted, aliased, multi-name, from-import of attributes and unimported submodules, relative level 1 and 2) in 8 placements (module, function, class, function whose inner function and inner class body read the names as free variables, inner function with nonlocal, function with global, module level after while and for-break loops, nested global declaration under a function importing the same names), as a top-level script and as a module inside the package, under all option combinations: which modules are executed, in which order, what ends up in sys.modules and what every bound name refers to must equal CPython's.",
         note="Trusted: CPython import system; the vendored package tree is the whole import universe explored.",
         ref="DESIGN.md 3 C14",
     ),
     "C15": dict(
         category="exploration",
         technique="bounded-exhaustive enumeration of 3.8-syntax programs (C01/C06/C12/C13 spaces, f-string/literal shapes, syntax-sensitive programs) x 8 option combinations x host interpreters, every distinct output text evaluated by a batch worker under each of Python 3.8..3.13 against that runtime's own execution of the source; plus parse-portability of the oneliner unparser over C03's expression space on every runtime",
-        text="Every program of the listed spaces that python3.8 compiles and runs is converted under all option combinations on hosts 3.10 and 3.12 (thorough: 3.10-3.13); every distinct output text is evaluated on each of 3.8, 3.9, 3.10, 3.11, 3.12, 3.13 and must match that runtime's execution of the source; every in-scope expression tree of C03's space (depth<=1 full, depth 2/3 over hazard sets) unparsed by the oneliner unparser must parse to the same tree on every runtime where the tree is denotable.",
+        text="Every program of the listed spaces that python3.8 compiles and runs is converted under all option combinations on hosts 3.10-3.13; every distinct output text is evaluated on each of 3.8, 3.9, 3.10, 3.11, 3.12, 3.13 and must match that runtime's execution of the source; every in-scope expression tree of C03's space (depth<=1 full, depth 2/3 over hazard sets) unparsed by the oneliner unparser must parse to the same tree on every runtime where the tree is denotable.",
         note="Trusted: the six installed interpreters; 3.14 is not installed (stated limit). Each runtime computes its own reference.",
         ref="DESIGN.md 3 C15",
     ),
